@@ -450,6 +450,7 @@ func c07(c *Ctx) {
 	// nodes it builds; a reader that joined a flight returns that flight's error (not something derived from its own context).
 	c06sharedBarrierAs(c, "C07.R9")
 	c06barrierUse(c, "C07.R9")
+	c07memCache(c)
 }
 
 // c07privateGroup (C07.R7): every ResourceManager owns its flight group. The flight key is only the
@@ -564,4 +565,76 @@ func c07sharedValue(c *Ctx) {
 	bad = uniqStrings(bad)
 	o := c.R.Check(len(bad) == 0 && sites >= 4, rule, "SingleFlight users#shared-value", "no closure handed to SingleFlight.Do/DoEx returns a pointer-like parameter of its enclosing function (the shared value is made inside the flight)", "-", strings.Join(bad, "; "), bad, sites)
 	o.Sites = sites
+}
+
+// c07memCache (C07.R10, round 6): the in-memory cache's Take is the flight's other in-tree user with a caller-supplied
+// loader. On every path of Take the loader is never invoked by Take itself: a path either returns the hit found by the
+// first lookup, or calls c.barrier.Do exactly once, keyed by the caller's key, with the closure that (alone) runs the
+// loader at most once. A "plain miss" shortcut that calls fetch() directly — for some configuration of the cache —
+// lets every overlapping Take of one key run the loader at the same time.
+func c07memCache(c *Ctx) {
+	rule := "C07.R10"
+	const cpkg = "core/collection"
+	f := c.fn(rule, cpkg, "(*Cache).Take")
+	if f == nil {
+		return
+	}
+	cl := c.closure(rule, f, "barrier closure", func(a *ssa.Function) bool { return a.Parent() == f })
+	if cl == nil {
+		return
+	}
+	keyP := paramOfType(f, "string")
+	fetchP := paramOfType(f, "func() (any, error)")
+	if keyP == nil || fetchP == nil {
+		c.R.Undecided(rule, cpkg+".(*Cache).Take", "Take(key, fetch) has a key and a loader", "parameters not recognised")
+		return
+	}
+	doGet := c.P.Func(cpkg, "(*Cache).doGet")
+	ps := c.paths(rule, f, px.Config{})
+	c.forall(rule, cpkg+".(*Cache).Take", "the loader runs only inside the closure handed to c.barrier.Do(key, …): a path returns the first lookup's hit or goes through the barrier exactly once", f, ps, func(p *px.Path) (bool, string) {
+		if p.Has(func(e *px.Event) bool { return e.Kind == px.EvCall && e.Call.IsDyn() && e.Call.FnSym.Kind == px.KParam }) {
+			return false, "the loader is invoked outside the barrier: overlapping Takes of one key all load"
+		}
+		do := p.All(func(e *px.Event) bool {
+			return e.Kind == px.EvCall && e.Call.Method != nil && (e.Call.Method.Name() == "Do" || e.Call.Method.Name() == "DoEx") && px.IsFieldLoad(e.Call.Recv, "barrier", nil)
+		})
+		if len(do) == 0 {
+			// only the hit of the first lookup may skip the barrier
+			gs := p.All(px.CallsFn(doGet))
+			if len(gs) == 1 {
+				if ok := findExtract(p, gs[0].Res, 1); ok != nil && p.Abs(ok).K == px.True {
+					return true, ""
+				}
+			}
+			return false, "a path that did not find the key returns without going through the barrier"
+		}
+		if len(do) != 1 {
+			return false, "the barrier is entered more than once"
+		}
+		if !isParam(do[0].Call.Args[0], keyP) {
+			return false, "the barrier is not keyed by the caller's key"
+		}
+		if a := do[0].Call.Args[1].Strip(false); a.Kind != px.KClosure || a.Fn != cl {
+			return false, "the barrier does not run the loading closure"
+		}
+		return true, ""
+	})
+	cps := c.paths(rule, cl, px.Config{})
+	c.forall(rule, cpkg+".(*Cache).Take$flight", "inside the flight the loader runs at most once, and not at all when the second lookup finds the key", cl, cps, func(p *px.Path) (bool, string) {
+		n := p.Count(px.DynWhere(func(s *px.Sym) bool {
+			s = s.Strip(false)
+			return (s.Kind == px.KFreeVar && s.V.Name() == fetchP.Name()) || (s.Kind == px.KLoad && s.X != nil && s.X.Kind == px.KFreeVar && s.X.V.Name() == fetchP.Name())
+		}))
+		if n > 1 {
+			return false, fmt.Sprintf("the loader runs ×%d in one flight", n)
+		}
+		gs := p.All(px.CallsFn(doGet))
+		if len(gs) == 1 {
+			if ok := findExtract(p, gs[0].Res, 1); ok != nil && p.Abs(ok).K == px.True && n != 0 {
+				return false, "the loader runs although the key was found"
+			}
+		}
+		return true, ""
+	})
+	c.R.Min(rule, 2, "Cache.Take, its flight closure")
 }
